@@ -98,3 +98,7 @@ func LockModel(on bool) {}
 
 // Origin: for a value produced by a call the engine does not interpret, the name of that call ("" otherwise / natively).
 func Origin(v any) string { return "" }
+
+// BatchSizes / SpontaneousFlush: see model_pebble.go (engine only).
+func BatchSizes(on bool)       {}
+func SpontaneousFlush(on bool) {}
